@@ -30,10 +30,20 @@ def log(msg):
     print(msg, flush=True)
 
 
+def _big_stack():
+    # Coq's front end recurses on long list literals of generated case files
+    try:
+        import resource
+        soft, hard = resource.getrlimit(resource.RLIMIT_STACK)
+        resource.setrlimit(resource.RLIMIT_STACK, (hard, hard))
+    except Exception:
+        pass
+
+
 def sh(cmd, cwd=None, env=None, timeout=None, capture=True):
     try:
         p = subprocess.run(cmd, cwd=cwd, env=env, timeout=timeout, stdout=subprocess.PIPE if capture else None,
-                           stderr=subprocess.STDOUT if capture else None, text=True)
+                           stderr=subprocess.STDOUT if capture else None, text=True, preexec_fn=_big_stack)
         return p.returncode, p.stdout or ""
     except subprocess.TimeoutExpired as e:
         out = e.stdout if isinstance(e.stdout, str) else (e.stdout or b"").decode("utf8", "replace")
